@@ -81,9 +81,14 @@ c.finish(
         "decode agreement on damaged encodings and parameter/chain observations",
         "coq/C06/CCITT.v: Group 3 one-dimensional coding (K = 0) with the code tables translated from "
         "internal/filter/ccittfax/tables.go (Gen_C06ccitt.v), tied by cross round trip on images and damaged code streams",
-        "zlib (compress/zlib) and two-dimensional CCITT coding (K != 0) are not modelled: only their parameters and "
+        "coq/C06/CCITT2D.v: Group 4 (K < 0) two-dimensional coding, tied by cross round trip on images and damaged code streams",
+        "zlib (compress/zlib) and mixed CCITT coding (K > 0) are not modelled: only their parameters and "
         "their place in a chain; their round trips are tested on the implementation",
     ],
     partial=[
+        "g4_rt_all (Group 4 / two-dimensional coding, whole images) is stated as a Definition; proved parts: "
+        "g4_full_run_rt, full_run_complete_iff, full_run_bound (horizontal-mode run decoder with the iteration bound taken "
+        "from the Go source), ccitt_mode_table; the executable model coq/C06/CCITT2D.v carries the rest by correspondence "
+        "(cross round trip and damaged code streams for K < 0); K > 0 (mixed) is tested on the implementation only",
     ],
 )
